@@ -86,6 +86,9 @@ fn sweep_days(rep: &mut Report, name: &str, lo: i64, hi: i64, use_dt: bool) {
                 acc.violation("harness", "refmodel-walker-disagrees", json!({"day": day}), format!("{:?}", w), format!("{:?}", cal::civil_from_days(day)));
             }
             case_day(&w, use_dt, acc);
+            // purity probe: a fixed anchor day is read back after every day of the sweep; whatever the
+            // sweep's calls leave behind (a memo, a cache, a scratch value) must not change its answer
+            anchor_probe(day, use_dt, acc);
             if i % 200_000_003 == 0 {
                 acc.sample(json!({"op": "as_ymd/from_ymd", "day": day, "date": [w.disp_year(), w.m, w.d]}));
             }
@@ -174,6 +177,16 @@ fn case_day_after(pred: i64, day: i64, use_dt: bool, acc: &mut Acc) {
     match &got {
         Out::Val((y, m, d)) if (*y as i64, *m, *d) == (ey, em, ed) => acc.branch("read-after-another-day"),
         other => acc.violation(if use_dt { "DateTime::as_ymd" } else { "Date::as_ymd" }, "readback-depends-on-the-previous-call", json!({"day": day, "pred": pred, "datetime": use_dt}), format!("({}, {}, {})", ey, em, ed), other.show()),
+    }
+}
+
+const ANCHOR_DAY: i64 = 738_276; // 2022-05-02
+fn anchor_probe(pred: i64, use_dt: bool, acc: &mut Acc) {
+    let ts = (ANCHOR_DAY - cal::DAYS_TO_1970) * 86_400;
+    let got = if use_dt { call(|| DateTime::from_timestamp(ts).as_ymd()) } else { call(|| Date::from_timestamp(ts).as_ymd()) };
+    acc.transitions += 1;
+    if got != Out::Val((2022, 5, 2)) {
+        acc.violation(if use_dt { "DateTime::as_ymd" } else { "Date::as_ymd" }, "readback-depends-on-the-previous-call", json!({"day": ANCHOR_DAY, "pred": pred, "datetime": use_dt}), "(2022, 5, 2)".into(), got.show());
     }
 }
 
